@@ -65,12 +65,15 @@ theorem step_refines (s : Stk) (op : Op) :
     abs (step s op).1 = (specStep (abs s) op).1 ∧ (step s op).2 = (specStep (abs s) op).2 := by
   cases op with
   | push p => simp [step, specStep, abs]
+  | reset => simp [step, specStep, abs]
   | pop | tryPop | cur | getCur | cClear | cDup =>
     rcases List.eq_nil_or_concat s with h | ⟨r, p, h⟩ <;> subst h <;>
       simp [step, specStep, vecPop, abs]
-  | edit p | tryEdit p =>
-    rcases List.eq_nil_or_concat s with h | ⟨r, q, h⟩ <;> subst h <;>
-      simp [step, specStep, vecPop, abs]
+  | edit e | tryEdit e =>
+    rcases List.eq_nil_or_concat s with h | ⟨r, q, h⟩
+    · subst h; simp [step, specStep, vecPop, abs]
+    · subst h
+      cases he : applyEdit e q <;> simp [step, specStep, vecPop, abs, he]
   | peek d | tryPeek d =>
     simp only [step, specStep, tryPeek_eq]
     cases (abs s)[d]? <;> simp
@@ -88,18 +91,20 @@ theorem step_refines (s : Stk) (op : Op) :
     · simp [h]
     · obtain ⟨s', h1, h2⟩ := rotate_eq s n (by omega)
       simp [h1, h2, h]
-  | cIleave =>
+  | cIleave w =>
     rcases List.eq_nil_or_concat s with h | ⟨r, p, h⟩
     · subst h; simp [step, specStep, vecPop, abs]
     · subst h
-      rcases List.eq_nil_or_concat r with h | ⟨r', q, h⟩ <;> subst h <;>
-        simp [step, specStep, vecPop, abs]
-  | cSplit =>
+      rcases List.eq_nil_or_concat r with h | ⟨r', q, h⟩ <;> subst h
+      · by_cases hw : w = some 1 <;> simp [step, specStep, vecPop, abs, hw]
+      · simp [step, specStep, vecPop, abs]
+  | cSplit w ws =>
     rcases List.eq_nil_or_concat s with h | ⟨r, p, h⟩
     · subst h; simp [step, specStep, vecPop, abs]
     · subst h
-      cases hs : splitPop p with
-      | none => simp [step, specStep, vecPop, abs, hs]
+      cases hs : splitPop p ws with
+      | none =>
+        by_cases hw : w = some (r.length + 1) <;> simp [step, specStep, vecPop, abs, hs, hw]
       | some lu => obtain ⟨l, u⟩ := lu; simp [step, specStep, vecPop, abs, hs]
 
 /-- `k`-fold application. -/
@@ -149,5 +154,130 @@ theorem specRot_iter (s : Spec) (n k : Nat) (hn : n ≤ s.length) :
     rw [specRot_eq]
     have h1 : (rotL1 (List.take n s)).length = n := by simp [rotL1_length]; omega
     simp [List.take_append, List.drop_append, h1]
+
+/-! ### Split: every legal outcome has the stated shape, and the stable sort is a legal outcome. -/
+
+theorem splitLegal_spec (p l u : Pop) (hs : splittable p = true) (h : splitLegal p l u = true) :
+    (l ++ u).Perm p ∧ l.length = (p.length + 1) / 2 ∧ u.length = p.length / 2 ∧
+    (l ++ u).Pairwise (fun a b => key a ≤ key b) ∧
+    (∀ a ∈ l ++ u, ∃ x, a.obj = some x ∧ key a = x) := by
+  simp only [splitLegal, Bool.and_eq_true, decide_eq_true_eq, List.isPerm_iff] at h
+  obtain ⟨⟨h1, h2⟩, h3⟩ := h
+  simp only [splittable, Bool.and_eq_true, decide_eq_true_eq, List.all_eq_true] at hs
+  refine ⟨h2, h1, ?_, h3, ?_⟩
+  · have := h2.length_eq
+    simp only [List.length_append] at this
+    omega
+  · intro a ha
+    have hm : a ∈ p := h2.subset ha
+    have := hs.2 a hm
+    cases ho : a.obj with
+    | none => simp [ho] at this
+    | some x => exact ⟨x, rfl, by simp [key, ho]⟩
+
+theorem splitCanon_legal (p : Pop) : splitLegal p (splitCanon p).1 (splitCanon p).2 = true := by
+  simp only [splitLegal, splitCanon, Bool.and_eq_true, decide_eq_true_eq, List.isPerm_iff,
+    List.take_append_drop]
+  refine ⟨⟨?_, List.mergeSort_perm _ _⟩, ?_⟩
+  · simp [List.length_mergeSort]; omega
+  · have := List.pairwise_mergeSort (le := objLe)
+      (fun a b c hab hbc => by simp only [objLe, decide_eq_true_eq] at *; omega)
+      (fun a b => by simp only [objLe, Bool.or_eq_true, decide_eq_true_eq]; omega) p
+    simpa [objLe] using this
+
+theorem splitPop_some (p : Pop) (ws : Option (Pop × Pop)) (l u : Pop) (h : splitPop p ws = some (l, u)) :
+    splittable p = true ∧ splitLegal p l u = true := by
+  unfold splitPop at h
+  by_cases hs : splittable p = true
+  · simp only [hs, if_true] at h
+    refine ⟨hs, ?_⟩
+    cases ws with
+    | none =>
+      simp only [Option.some.injEq] at h
+      have := splitCanon_legal p
+      rw [h] at this; exact this
+    | some w =>
+      obtain ⟨wl, wu⟩ := w
+      simp only at h
+      split at h
+      · next hl => simp only [Option.some.injEq, Prod.mk.injEq] at h; rw [← h.1, ← h.2]; exact hl
+      · simp only [Option.some.injEq] at h
+        have := splitCanon_legal p
+        rw [h] at this; exact this
+  · simp [hs] at h
+
+/-! ### Vocabulary of the conservation theorem -/
+
+/-- The plain stack operations (no edits, no utility components). -/
+def stackOp : Op → Bool
+  | .push _ | .pop | .tryPop | .cur | .getCur | .peek _ | .tryPeek _ | .rot _ | .cRot _ | .len | .empty => true
+  | _ => false
+
+def pushedBy : Op → List Pop
+  | .push p => [p]
+  | _ => []
+
+def removedBy : Op → Out → List Pop
+  | .pop, .pop p => [p]
+  | .tryPop, .pop p => [p]
+  | _, _ => []
+
+def pushedAll (ops : List Op) : List Pop := ops.flatMap pushedBy
+
+def removedAll : List Op → List Out → List Pop
+  | op :: ops, o :: os => removedBy op o ++ removedAll ops os
+  | _, _ => []
+
+/-! ### Interleave / Duplicate -/
+
+theorem interleave_nil_right (a : Pop) : interleave a [] = a := by
+  cases a <;> simp [interleave]
+
+/-- `interleave a b` alternates `a[0], b[0], a[1], b[1], …` as long as both last, then appends what is left of the longer. -/
+theorem interleave_eq (a b : Pop) :
+    interleave a b = (List.zip a b).flatMap (fun xy => [xy.1, xy.2]) ++ a.drop b.length ++ b.drop a.length := by
+  induction a generalizing b with
+  | nil => simp [interleave]
+  | cons x xs ih =>
+    cases b with
+    | nil => simp [interleave]
+    | cons y ys => simp [interleave, ih ys]
+
+theorem interleave_perm (a b : Pop) : (interleave a b).Perm (a ++ b) := by
+  induction a generalizing b with
+  | nil => simp [interleave]
+  | cons x xs ih =>
+    cases b with
+    | nil => simp [interleave]
+    | cons y ys =>
+      simp only [interleave, List.cons_append]
+      refine List.Perm.cons x ?_
+      have := (ih ys).cons y
+      exact this.trans (List.perm_middle.symm)
+
+theorem interleave_sublist_left (a b : Pop) : a.Sublist (interleave a b) := by
+  induction a generalizing b with
+  | nil => simp
+  | cons x xs ih =>
+    cases b with
+    | nil => simp [interleave]
+    | cons y ys =>
+      simp only [interleave]
+      exact ((ih ys).cons y).cons_cons x
+
+theorem interleave_sublist_right (a b : Pop) : b.Sublist (interleave a b) := by
+  induction a generalizing b with
+  | nil => simp [interleave]
+  | cons x xs ih =>
+    cases b with
+    | nil => simp
+    | cons y ys =>
+      simp only [interleave]
+      exact ((ih ys).cons_cons y).cons x
+
+theorem interleave_self (p : Pop) : interleave p p = p.flatMap (fun i => [i, i]) := by
+  induction p with
+  | nil => simp [interleave]
+  | cons x xs ih => simp [interleave, ih]
 
 end MahfModel.PopStack
